@@ -166,7 +166,7 @@ PROPS = {
                   "HC.C02.reopen_exact", "HC.C02.flush_atomic"],
         bridge_modules=["HC.Bridge.Oplog"], bridging=OPLOG_BRIDGE,
         runs=_c10_runs,
-        partial="the reduction 'fault at k = crash before k' is proved on the model's journals and inherits C02's theorems: for a writer core after any history, a fault at any storage operation of an append_batch/clear/read leaves stores that reopen to the log before or after the call (fault_recovers); that the Rust stops at the failing operation and maps the error (glue) is checked by injecting one error at every storage operation of every call",
+        partial="the reduction 'fault at k = crash before k' is proved on the model's journals and inherits C02's theorems: for a writer core after any history, a fault at any storage operation of an append_batch/clear/read leaves stores that reopen to the log before or after the call (fault_recovers), and for a replica reached from creation by honest exchanges, reopens and crashes a fault at any storage operation of an honest proof application leaves stores that reopen to the replica before or after the application with the invariants re-established (replica_fault_recovers); that the Rust stops at the failing operation and maps the error (glue) is checked by injecting one error at every storage operation of every call",
         rule="for every call of every history (appends, batches, clears, make_read_only, reads, reopen; and, on a replica, every application of an honest proof - upgrade, block, block + upgrade, in random request order with growth rounds) and every index k of a storage operation it issues (write, delete, truncate, read, length query): the history prefix is replayed on a fresh instance, operation k fails with an I/O error; the call must return an error (not ok, no panic, no hang); drop + reopen must show exactly the state of the crash point with the same number of completed mutating operations (those crash states are compared with the Lean model and with the before/after oracle)",
         trusted=LOG_TRUSTED,
     ),
